@@ -125,6 +125,7 @@ type HookSpec struct {
 	Weight    *int     `json:"weight,omitempty"`
 	Policies  []string `json:"policies,omitempty"` // nil = annotation absent
 	RawEvents string   `json:"rawEvents,omitempty"`
+	PadWeight int      `json:"padWeight,omitempty"` // write the weight zero-padded to this many digits ("08", "-09", "010")
 	PolicySep string   `json:"policySep,omitempty"` // separator between delete policies in the annotation ("" = ",")
 }
 
